@@ -14,7 +14,7 @@ BIN = os.path.join(HERE, 'bin', 'einocheck')
 
 def load(prop):
     out = []
-    files = sorted(glob.glob(os.path.join(HERE, 'mutants', '*.json')))
+    files = sorted(glob.glob(os.path.join(HERE, 'mutants', 'C*.json')))
     for f in files:
         for m in json.load(open(f)):
             if prop == 'all' or m['property'] == prop or prop in m.get('also', []):
